@@ -110,6 +110,8 @@ func altCost(p Point, alt int) int {
 
 var execEpoch uint64
 
+var progress = os.Getenv("VSCHED_PROGRESS") != ""
+
 // Epoch identifies the current execution; shim objects that outlive an
 // execution (package-level mutexes, pools) reset their scheduler-side state
 // when they are first touched in a new epoch, so an execution that was cut
@@ -155,6 +157,15 @@ func runOnce(cfg Config, prefix []int, body func(), frontier func([3]uint64) boo
 		os.Exit(2)
 	}
 	active = nil
+	if len(s.atEnd) > 0 {
+		// make the real channels reflect the scheduler-side queues, so that clean-up code running in
+		// pass-through mode (e.g. closing a RocksDB whose iterator pool was filled under the scheduler) works
+		s.flushChannels()
+	}
+	normal := !s.Pruned && s.Deadlock == "" && !s.Livelock && len(s.Panics) == 0 && s.Diverged == ""
+	for i := len(s.atEnd) - 1; i >= 0; i-- {
+		s.atEnd[i](normal) // harness cleanup of real resources, outside the exploration (pass-through mode)
+	}
 	res := &Result{Points: s.points, Events: s.events, Steps: s.steps, Deadlock: s.Deadlock, Livelock: s.Livelock,
 		Panics: s.Panics, Races: s.Races, Diverged: s.Diverged, Values: s.Values, Pruned: s.Pruned, SigA: s.sigA}
 	res.Choices = make([]int, len(s.points))
@@ -240,6 +251,9 @@ func (e *explorer) run(prefix []int, remaining int) *Result {
 		}
 	}
 	res := runOnce(e.cfg, prefix, body, fr)
+	if progress && (e.execs+e.pruned)%2000 == 0 {
+		fmt.Fprintf(os.Stderr, "vsched progress: bound=%d execs=%d pruned=%d states=%d steps=%d prefix_len=%d\n", e.bound, e.execs, e.pruned, len(e.cache), e.transitions, len(prefix))
+	}
 	if res.Pruned {
 		e.pruned++
 		e.transitions += int64(res.Steps)
@@ -253,6 +267,10 @@ func (e *explorer) run(prefix []int, remaining int) *Result {
 	}
 	if res.Steps > e.maxSteps {
 		e.maxSteps = res.Steps
+	}
+	if len(res.Choices) < len(prefix) {
+		fmt.Fprintf(os.Stderr, "INFRA-ERROR: replay ended after %d of %d prefix choices (nondeterministic program?) problems=%v panics=%v\n", len(res.Choices), len(prefix), res.Problems(), res.Panics)
+		os.Exit(2)
 	}
 	for i := range prefix {
 		if res.Choices[i] != prefix[i] {
